@@ -28,6 +28,7 @@ Expected(e) ==
     [] e.op = "sub"      -> Sub(pt[e.i], pt[e.j])
     [] e.op = "neg"      -> Neg(pt[e.i])
     [] e.op = "mul"      -> SMul(e.k, pt[e.i])
+    [] e.op = "shared"   -> SMul(e.k, pt[e.i])
     [] e.op = "clear"    -> Inf
     [] e.op = "pfx"      -> PointsForX(e.k)
 
